@@ -26,6 +26,7 @@ func main() { hl.Main("C30", run) }
 type canary struct {
 	Tok   string `json:"tok"`
 	Field string `json:"field"`
+	S     string `json:"s"` // the user string itself (the driver looks for it verbatim = unescaped)
 }
 
 // canarySrc builds user strings that carry a unique token wrapped in markup-breaking payloads.
@@ -38,11 +39,12 @@ type canarySrc struct {
 var soup = []string{"<", ">", "&", "\"", "'", "&amp;", "&lt;", "&#60;", "]]>", "<!--", "-->", "<?", "?>", "<![CDATA[", "\t", " ", "\\", "/", "=",
 	"\u0001", "\u0008", "\u000b", "\u001f", "\u007f", "\u0085", "\u2028", "\ufffe", "\uffff", "\ufffd", "é", "日本", "😀", "\U0010ffff", "a", "Z", "0", "-", ".", ";", "#", "%", "{", "}", "$", "`"}
 
-func (c *canarySrc) Str(field string) string {
+func (c *canarySrc) Str(field string) (ret string) {
 	c.n++
 	tok := fmt.Sprintf("zq%dk", c.n)
 	if field != "md" && field != "code" && field != "tooltip-md" { // markup by design: well-formedness only
-		c.cans = append(c.cans, canary{tok, field})
+		c.cans = append(c.cans, canary{tok, field, ""})
+		defer func(i int) { c.cans[i].S = ret }(len(c.cans) - 1)
 	}
 	var b strings.Builder
 	if field == "md" {
@@ -297,7 +299,8 @@ func run(c *hl.Ctx) error {
 			if cl, ok := in["canaries"].([]any); ok {
 				for _, x := range cl {
 					m := x.(map[string]any)
-					j.cans = append(j.cans, canary{m["tok"].(string), m["field"].(string)})
+					sv, _ := m["s"].(string)
+					j.cans = append(j.cans, canary{m["tok"].(string), m["field"].(string), sv})
 				}
 			}
 			j.rich, _ = in["rich"].(bool)
